@@ -407,14 +407,29 @@ func rxWords(t []byte) (words [][]byte, leadWS, trailWS bool) {
 }
 
 // rxDropEmptyRuns removes text runs without any word.
-func rxDropEmptyRuns(evs []rxEv) []rxEv {
+func rxDropEmptyRuns(evs []rxEv) []rxEv { return rxDropEmptyRunsKeep(evs, false) }
+
+// rxDropEmptyRunsKeep drops the text runs without a word. With keepWS a white-space-only run that lies inside the root
+// element directly between two element tags stays: "with whitespace keeping enabled a space next to a tag is never
+// removed entirely" also holds when the space is all there is between the tags (<x> </x> must not become <x/>).
+func rxDropEmptyRunsKeep(evs []rxEv, keepWS bool) []rxEv {
 	out := make([]rxEv, 0, len(evs))
-	for _, e := range evs {
+	depth := 0
+	for i, e := range evs {
 		if e.k == 'T' {
 			w, _, _ := rxWords(e.a)
 			if len(w) == 0 {
-				continue
+				prevTag := i > 0 && (evs[i-1].k == 'S' || evs[i-1].k == 'A' || evs[i-1].k == 'E')
+				nextTag := i+1 < len(evs) && (evs[i+1].k == 'S' || evs[i+1].k == 'E')
+				if !(keepWS && depth > 0 && prevTag && nextTag && len(e.a) > 0) {
+					continue
+				}
 			}
+		}
+		if e.k == 'S' {
+			depth++
+		} else if e.k == 'E' {
+			depth--
 		}
 		out = append(out, e)
 	}
@@ -424,8 +439,11 @@ func rxDropEmptyRuns(evs []rxEv) []rxEv {
 // rxSame compares the infosets of input and output event lists up to insignificant whitespace.
 // Returns "" when they agree, else a short reason.
 func rxSame(in, out []rxEv, keepWS bool) string {
-	a, b := rxDropEmptyRuns(in), rxDropEmptyRuns(out)
+	a, b := rxDropEmptyRunsKeep(in, keepWS), rxDropEmptyRunsKeep(out, keepWS)
 	if len(a) != len(b) {
+		if keepWS && len(rxDropEmptyRuns(in)) == len(rxDropEmptyRuns(out)) {
+			return "KeepWhitespace: the white space between two tags removed entirely"
+		}
 		return "different number of nodes"
 	}
 	for i := range a {
